@@ -550,6 +550,100 @@ Fixpoint pages (fuel : nat) (s : state) (flt : efilter) (from to chunk limit : N
       end
   end.
 
+(* ---------- paging over a range that reaches into the pre-confirmed blocks ----------
+   The sequence of pages (events, token) obtained by following the continuation tokens of do_query_pre
+   (EventFilter.Events with a PreConfirmedReader): canonical pages first (tokens (n, p) with n <= head,
+   scan limit applies), then - in the SAME page in which the canonical part ends without a token - the
+   pre-confirmed tail (tokens (n, p) with n > head, no scan limit). *)
+Fixpoint page_seq (fuel : nat) (s : state) (flt : efilter) (from to chunk limit : N) (tok : N * N)
+    (pre : list block) : option (list (list fev * (N * N))) :=
+  match fuel with
+  | O => None
+  | S f =>
+      match do_query_pre s flt from to chunk limit tok pre with
+      | (s', OPage evs tok') =>
+          if tok_none tok' then Some [(evs, tok')]
+          else match page_seq f s' flt from to chunk limit tok' pre with
+               | Some more => Some ((evs, tok') :: more)
+               | None => None
+               end
+      | _ => None
+      end
+  end.
+
+Definition pages_pre (fuel : nat) (s : state) (flt : efilter) (from to chunk limit : N)
+    (pre : list block) : option (list fev) :=
+  match page_seq fuel s flt from to chunk limit (0, 0) pre with
+  | Some ps => Some (concat (map fst ps))
+  | None => None
+  end.
+
+(* the SPEC for such a range: the canonical matches of [from, min(to, head)] in chain order, then the
+   matches of the pre-confirmed blocks (numbered head+1, head+2, ...) whose number lies in [from, to];
+   from_block = pre_confirmed (the sentinel) denotes the most recent pre-confirmed block only. *)
+Fixpoint pre_matches (flt : efilter) (pre : list block) (n start to : N) : list fev :=
+  match pre with
+  | [] => []
+  | b :: rest =>
+      (if (start <=? n) && (n <=? to) then filter (fev_matches flt) (flat_block n b) else [])
+      ++ pre_matches flt rest (N.succ n) start to
+  end.
+
+Definition pre_start (ch pre : list block) (from : N) : N :=
+  if from =? sentinel then lenN ch - 1 + lenN pre else from.
+
+Definition filter_spec_pre (ch : list block) (flt : efilter) (from to : N) (pre : list block) : list fev :=
+  match ch with
+  | [] => []
+  | _ => filter_spec ch flt from to ++ pre_matches flt pre (lenN ch) (pre_start ch pre from) to
+  end.
+
+(* is block n (canonical or pre-confirmed, numbered after the chain) a candidate of the query? *)
+Definition cand_ext (s : state) (flt : efilter) (pre : list block) (n : N) : option bool :=
+  if n <? lenN (chain s) then cand_item s flt n
+  else Some (cand_test (block_keys (nthN (n - lenN (chain s)) pre [])) flt).
+
+(* ---------- predicates on a page sequence (evaluated by the harness on the pages the implementation
+   returns; a page is abstracted to (number of events, token)) ---------- *)
+Definition tok_lt (a b : N * N) : bool :=
+  (fst a <? fst b) || ((fst a =? fst b) && (snd a <? snd b)).
+
+(* a page never holds more than chunk events *)
+Definition page_chunk_ok (chunk : N) (p : N * (N * N)) : bool := fst p <=? chunk.
+
+(* an empty page carries a token only when the scan limit was hit: a limit is set and the token points at
+   the START of the next candidate block *)
+Definition page_empty_ok (limit : N) (p : N * (N * N)) : bool :=
+  negb (fst p =? 0) || tok_none (snd p) || ((0 <? limit) && (snd (snd p) =? 0)).
+
+(* a token lies strictly after the position the page started from (lexicographic on (block, processed)) *)
+Definition page_progress_ok (prev : N * N) (p : N * (N * N)) : bool :=
+  tok_none (snd p) || tok_lt prev (snd p).
+
+Fixpoint pages_ok (chunk limit : N) (prev : N * N) (ps : list (N * (N * N))) : bool :=
+  match ps with
+  | [] => true
+  | p :: r =>
+      page_chunk_ok chunk p && page_empty_ok limit p && page_progress_ok prev p &&
+      pages_ok chunk limit (snd p) r
+  end.
+
+Definition page_sizes (ps : list (list fev * (N * N))) : list (N * (N * N)) :=
+  map (fun p => (lenN (fst p), snd p)) ps.
+
+(* the progress measure: following tokens takes at most max(1, blocks in range + matches) pages *)
+Definition page_bound (blocks matches : N) : N := N.max 1 (blocks + matches).
+Definition page_count_ok (blocks matches pages : N) : bool := pages <=? page_bound blocks matches.
+
+(* the blocks (canonical and pre-confirmed) a query over [from, to] ranges over *)
+Definition range_blocks (ch pre : list block) (from to : N) : N :=
+  lenN (rangeN (pre_start ch pre from) (N.min to (lenN ch - 1 + lenN pre))).
+
+(* the candidate blocks among a .. b (what the scan limit counts) *)
+Definition is_cand (o : option bool) : bool := match o with Some true => true | _ => false end.
+Definition cands_between (s : state) (flt : efilter) (a b : N) : list N :=
+  filter (fun n => is_cand (cand_item s flt n)) (rangeN a b).
+
 (* ---------- decidable hypotheses of the theorems (also evaluated by the harness) ---------- *)
 Fixpoint list_eqb {A} (eqb : A -> A -> bool) (a b : list A) : bool :=
   match a, b with
